@@ -387,6 +387,7 @@ lib.SPECIAL['handler_accepts'] = _sp1(lambda eng, st, h, n: vbool(accepts(h.t, n
 
 def _dict_del(eng, st, d, k):
     dom, mp = d.t
+    k = eng.coerce(k, d.ty.args[0])
     return V(d.ty, (z3.Store(dom, k.t, False),
                     z3.Store(mp, k.t, eng.default_term(mp.sort().range()))))
 
@@ -396,6 +397,7 @@ lib.SPECIAL['dict_del'] = _sp1(_dict_del)
 
 def _dict_set(eng, st, d, k, v):
     dom, mp = d.t
+    k = eng.coerce(k, d.ty.args[0])
     vt = d.ty.args[1]
     v2 = eng.coerce(v, vt)
     return V(d.ty, (z3.Store(dom, k.t, True),
@@ -554,3 +556,45 @@ def sp_unchanged(eng, st, e):
 
 
 lib.SPECIAL['unchanged'] = sp_unchanged
+
+
+def sp_all_values(eng, st, e):
+    """all_values(d, lambda v: P(v)): P holds for every value of dict d (quantified over keys;
+    instantiated by hand at the keys the path looks up)."""
+    d = eng.spec(e.args[0], st, dict(st.env), modname=eng.modname(st))
+    lam = e.args[1]
+    kt, vt = d.ty.args[0], d.ty.args[1]
+    k = z3.Const(eng.name('q_key'), sort_of(kt))
+    env = dict(st.env)
+    env['__parent__'] = st.env
+    env[lam.args.args[0].arg] = V(vt, z3.Select(d.t[1], k))
+    s2 = st.copy()
+    s2.pc.append(z3.Select(d.t[0], k))
+    saved = eng.undef
+    eng.undef = []
+    eng.bound_depth += 1
+    try:
+        body = truth(eng.spec(lam.body, s2, env, modname=eng.modname(st)))
+        und = eng.undef
+    finally:
+        eng.undef = saved
+        eng.bound_depth -= 1
+    if und:
+        body = z3.And(z3.Not(z3.Or(*und)), body)
+    rng = [z3.Select(d.t[0], k)]
+    t = z3.ForAll([k], z3.Implies(rng[0], body))
+    eng.quants[t.get_id()] = (t, [k], rng, body)
+    yield st, vbool(t)
+
+
+lib.SPECIAL['all_values'] = sp_all_values
+
+
+def sp_fresh_obj(eng, st, e):
+    """fresh_obj(x): object x was allocated after the pre-state of the enclosing contract."""
+    x = eng.spec(e.args[0], st, dict(st.env), modname=eng.modname(st))
+    a0 = st.pre.ghost['$alloc'].t if st.pre is not None else st.ghost['$alloc'].t
+    yield st, vbool(x.t > a0)
+
+
+lib.SPECIAL['fresh_obj'] = sp_fresh_obj
